@@ -54,6 +54,13 @@ func (s *Server) manifestDelete(repoStr, arg string) http.HandlerFunc {
 			_ = types.ErrRespJSON(w, types.ErrInfoManifestUnknown("tag or digest was not found in repository"))
 			return
 		}
+		// a referrers response is maintained by the registry as referrers are pushed and deleted, it is not a manifest of a client
+		if !types.RefTagRE.MatchString(arg) && indexOnlyReferrerResponse(index, desc.Digest) {
+			s.log.Debug("refusing to delete a referrers response", "repo", repoStr, "arg", arg)
+			w.WriteHeader(http.StatusNotFound)
+			_ = types.ErrRespJSON(w, types.ErrInfoManifestUnknown("tag or digest was not found in repository"))
+			return
+		}
 		// if referrers is enabled, remove entry from the referrers list
 		if *s.conf.API.Referrer.Enabled && !types.RefTagRE.MatchString(arg) {
 			// wrap in a func to allow a return from errors without breaking the actual delete
@@ -93,6 +100,21 @@ func (s *Server) manifestDelete(repoStr, arg string) http.HandlerFunc {
 		}
 		w.WriteHeader(http.StatusAccepted)
 	}
+}
+
+// indexOnlyReferrerResponse reports whether every index entry with the digest is the referrers response of a subject.
+func indexOnlyReferrerResponse(index types.Index, dig digest.Digest) bool {
+	found := false
+	for _, d := range index.Manifests {
+		if d.Digest != dig {
+			continue
+		}
+		if d.Annotations == nil || d.Annotations[types.AnnotReferrerSubject] == "" {
+			return false
+		}
+		found = true
+	}
+	return found
 }
 
 func (s *Server) manifestGet(repoStr, arg string) http.HandlerFunc {
